@@ -60,9 +60,100 @@ def _split_assign(st, arg, names):
         raise ExtractError("scaling(): expected %s = split(%s)" % (", ".join(names), arg))
 
 
+def _si_expr(n):
+    """`unit and (is_atomic(unit) or is_compound(unit))` -> SiExpr term"""
+    if isinstance(n, ast.BoolOp):
+        op = ".and" if isinstance(n.op, ast.And) else ".or"
+        terms = [_si_expr(v) for v in n.values]
+        out = terms[-1]
+        for t in reversed(terms[:-1]):
+            out = "(%s %s %s)" % (op, t, out)
+        return out
+    if _is_name(n, "unit"):
+        return ".nonEmpty"
+    if (isinstance(n, ast.Call) and isinstance(n.func, ast.Name) and n.func.id in ("is_atomic", "is_compound")
+            and len(n.args) == 1 and _is_name(n.args[0], "unit") and not n.keywords):
+        return ".atomic" if n.func.id == "is_atomic" else ".compound"
+    raise ExtractError("is_si(): unrecognised term in the returned expression")
+
+
+def _is_si_shape(tree):
+    fn = _func(tree, "is_si")
+    body = [s for s in fn.body if not (isinstance(s, ast.Expr) and isinstance(s.value, ast.Constant))]
+    if [a.arg for a in fn.args.args] != ["unit"] or len(body) != 1 or not isinstance(body[0], ast.Return):
+        raise ExtractError("is_si(): expected a single return statement over `unit`")
+    return _si_expr(body[0].value)
+
+
+def _ret_const(st, val):
+    return isinstance(st, ast.Return) and isinstance(st.value, ast.Constant) and st.value.value is val
+
+
+def _scalable_shape(tree):
+    fn = _func(tree, "scalable")
+    if [a.arg for a in fn.args.args] != ["units_a", "units_b"]:
+        raise ExtractError("scalable(): unexpected parameters")
+    body = [s for s in fn.body if not (isinstance(s, ast.Expr) and isinstance(s.value, ast.Constant))]
+    if len(body) != 6:
+        raise ExtractError("scalable(): expected 6 statements (list branch, SI guard, 2 splits, comparison, return "
+                           "True), found %d" % len(body))
+    s_list, s_si, s_sp1, s_sp2, s_cmp, s_ret = body
+    # list branch: length test, pairwise loop, return True
+    if not (isinstance(s_list, ast.If) and not s_list.orelse and len(s_list.body) == 3):
+        raise ExtractError("scalable(): list branch not recognised")
+    l_len, l_for, l_ret = s_list.body
+    ok_len = (isinstance(l_len, ast.If) and isinstance(l_len.test, ast.Compare) and len(l_len.test.ops) == 1
+              and isinstance(l_len.test.ops[0], ast.NotEq) and len(l_len.body) == 1 and _ret_const(l_len.body[0], False)
+              and ast.dump(l_len.test.left) == ast.dump(ast.parse("len(units_a)", mode="eval").body)
+              and ast.dump(l_len.test.comparators[0]) == ast.dump(ast.parse("len(units_b)", mode="eval").body))
+    ok_for = (isinstance(l_for, ast.For) and not l_for.orelse
+              and ast.dump(l_for.iter) == ast.dump(ast.parse("zip(units_a, units_b)", mode="eval").body)
+              and len(l_for.body) == 1 and isinstance(l_for.body[0], ast.If) and not l_for.body[0].orelse
+              and ast.dump(l_for.body[0].test) == ast.dump(ast.parse("not scalable(unit_a, unit_b)", mode="eval").body)
+              and len(l_for.body[0].body) == 1 and _ret_const(l_for.body[0].body[0], False))
+    if not (ok_len and ok_for and _ret_const(l_ret, True)):
+        raise ExtractError("scalable(): list branch is not length test / pairwise loop / return True")
+    # if not (is_si(units_a) and is_si(units_b)): return False
+    t = s_si.test if isinstance(s_si, ast.If) else None
+    if not (t is not None and isinstance(t, ast.UnaryOp) and isinstance(t.op, ast.Not) and not s_si.orelse
+            and len(s_si.body) == 1 and _ret_const(s_si.body[0], False)):
+        raise ExtractError("scalable(): `if not (is_si(..) and is_si(..)): return False` not found")
+    terms = t.operand.values if (isinstance(t.operand, ast.BoolOp) and isinstance(t.operand.op, ast.And)) \
+        else [t.operand]
+    si = set()
+    for c in terms:
+        if not (isinstance(c, ast.Call) and _is_name(c.func, "is_si") and len(c.args) == 1
+                and isinstance(c.args[0], ast.Name) and c.args[0].id in ("units_a", "units_b")):
+            raise ExtractError("scalable(): unrecognised term in the SI guard")
+        si.add(c.args[0].id)
+    _split_assign(s_sp1, "units_a", ["_", "a_unit", "a_power"])
+    _split_assign(s_sp2, "units_b", ["_", "b_unit", "b_power"])
+    if not (isinstance(s_cmp, ast.If) and not s_cmp.orelse and len(s_cmp.body) == 1 and _ret_const(s_cmp.body[0], False)):
+        raise ExtractError("scalable(): `if <components differ>: return False` not found")
+    terms = s_cmp.test.values if (isinstance(s_cmp.test, ast.BoolOp) and isinstance(s_cmp.test.op, ast.Or)) \
+        else [s_cmp.test]
+    cmp_ = set()
+    for c in terms:
+        if not (isinstance(c, ast.Compare) and len(c.ops) == 1 and isinstance(c.ops[0], ast.NotEq)
+                and isinstance(c.left, ast.Name) and isinstance(c.comparators[0], ast.Name)):
+            raise ExtractError("scalable(): unrecognised term in the comparison")
+        pair = {c.left.id, c.comparators[0].id}
+        if pair == {"a_unit", "b_unit"}:
+            cmp_.add("unit")
+        elif pair == {"a_power", "b_power"}:
+            cmp_.add("power")
+        else:
+            raise ExtractError("scalable(): compares %s" % sorted(pair))
+    if not _ret_const(s_ret, True):
+        raise ExtractError("scalable(): final `return True` not found")
+    return si, cmp_
+
+
 def extract(repo):
     path = os.path.join(repo, "nixio", "util", "units.py")
     tree = ast.parse(open(path, encoding="utf-8").read())
+    si_shape = _is_si_shape(tree)
+    sc_si, sc_cmp = _scalable_shape(tree)
     fn = _func(tree, "scaling")
     if [a.arg for a in fn.args.args] != ["origin", "destination"]:
         raise ExtractError("scaling(): unexpected parameters")
@@ -157,6 +248,18 @@ def extract(repo):
     L.append("def scaleElse : Option ScaleExpr := " + ("none" if other is None else "some " + other))
     L.append("/-- `if org_power: scale **= int(org_power)` (true) or the destination's power (false) -/")
     L.append("def scalePowerFromOrg : Bool := " + lean_bool(s_pow.test.id == "org_power"))
+    L.append("")
+    L.append("/-- the expression `is_si` returns (its truth value) -/")
+    L.append("inductive SiExpr where")
+    L.append("  | nonEmpty | atomic | compound | and (a b : SiExpr) | or (a b : SiExpr)")
+    L.append("  deriving DecidableEq, Repr")
+    L.append("def isSiShape : SiExpr := " + si_shape)
+    L.append("/-- scalable(): `if not (is_si(units_a) and is_si(units_b)): return False` — which operands are tested -/")
+    L.append("def scalableNeedsSiA : Bool := " + lean_bool("units_a" in sc_si))
+    L.append("def scalableNeedsSiB : Bool := " + lean_bool("units_b" in sc_si))
+    L.append("/-- scalable(): `if a_unit != b_unit or a_power != b_power: return False` — which components are compared -/")
+    L.append("def scalableComparesUnit : Bool := " + lean_bool("unit" in sc_cmp))
+    L.append("def scalableComparesPower : Bool := " + lean_bool("power" in sc_cmp))
     L.append("")
     L.append("end Nix.Units.Gen")
     return {"NixModel/Generated/UnitsScaling.lean": "\n".join(L) + "\n"}
